@@ -622,7 +622,7 @@ class World:
         self.tmpdir = tempfile.mkdtemp(prefix='vsim_')
         self.rules_path = None
         self.rpc_seq = 0
-        self.max_steps = scenario.get('max_steps', 250000)
+        self.max_steps = scenario.get('max_steps', 90000)
         self.restart_delay = sched.get('restart_delay', (0.5, 3.0))
         self.auto_reboot = scenario.get('auto_reboot', True)
         self.msg_filter = None   # callable(world, src_inst, dst_identifier, method, args) -> 'drop' | None
